@@ -73,6 +73,17 @@ def pairs(sel):
     return [(Instrument[i], Difficulty[d]) for i, d in sel]
 
 
+class _ReadOnly:
+    """the least a caller's file object can be: read() and nothing else"""
+
+    def __init__(self, text):
+        self._t = text
+
+    def read(self, *a):
+        t, self._t = self._t, ""
+        return t
+
+
 class werror:
     """`with werror():` — inside shards of the "-W error" configuration, Python warnings are errors while the library's main entry
     point runs (as under `python -W error` or pytest's filterwarnings=error): a warning raised while a chart is being read then
@@ -166,6 +177,14 @@ def parse(text: str, want=None, newline_passthrough: bool = True) -> Outcome:
     """Chart.from_file on a StringIO (newline='' so CR LF reach the parser as written)."""
     env.LOG.drain()
     fp = io.StringIO(text, newline="") if newline_passthrough else io.StringIO(text)
+    if newline_passthrough and len(text) % 7 in (1, 4):
+        # "a file object": besides StringIO, a text wrapper over bytes (what open() returns) and a minimal object that only has
+        # read() — the same characters reach the parser in all three
+        try:
+            raw = text.encode("utf-8")
+            fp = io.TextIOWrapper(io.BytesIO(raw), encoding="utf-8", newline="") if len(text) % 7 == 1 else _ReadOnly(text)
+        except UnicodeEncodeError:
+            pass
     # (the form is a function of the input, so that a replay of a recorded case takes the same form)
     _CALLS = len(text) + (len(want) if want is not None and hasattr(want, "__len__") else 0)
     try:
